@@ -1076,7 +1076,8 @@ C03_SCHEDULES_THOROUGH = C03_SCHEDULES_QUICK + [
     ["main", "other", "other", "main", "other", "main"],
     ["main", "main", "main", "main"],
 ]
-C03_SHAPES_QUICK = {"one", "chain2", "self2", "fn_chain", "fn_dup", "triangle", "chain3", "star3", "fn_mid", "chain4", "cycle4", "two_comp"}
+C03_SHAPES_QUICK = {"one", "chain2", "self2", "fn_chain", "fn_dup", "triangle", "chain3", "star3", "fn_mid", "chain4", "cycle4", "two_comp",
+                    "g_rep", "p_chain2", "p_tri", "k_nest1", "k_chain", "k_dup_key", "f_lt_link", "f_add_join"}
 
 
 def configs_for(prop, tier, seed):
